@@ -260,6 +260,8 @@ def concrete_suite(ctx):
         [(99.0, 10.5), (104.0, 10.5)],                         # along a cell boundary row
         [(90.0, 0.0), (95.0, 1.0)],                            # misses the model
         [(101.0, 10.0), (99.0, 12.0)],                         # touches corners
+        [(99.7, 10.2), (103.3, 11.9)],                         # entirely inside the model, many cells
+        [(100.2, 12.3), (102.8, 9.8)],                         # entirely inside, other direction
     ]
     datasets.append((ds1, 'temp', lines1))
     # a mesh with a concave (L-shaped) face, a hole between faces, and a triangle
@@ -275,6 +277,7 @@ def concrete_suite(ctx):
         [(3, 3), (3, 3.5)],                                    # entirely inside one cell
     ]
     datasets.append((dm, 'temp', linesm))
+    deferred = []      # reported after everything else has been checked
     for ds, var, lines in datasets:
         cv = ds.ems
         polys = cv.polygons
@@ -297,6 +300,15 @@ def concrete_suite(ctx):
                 ctx.check(s.intersection.geom_type == 'LineString' and s.intersection.length > 0, 'segments are line pieces, never points')
                 ctx.check(s.start_distance <= s.end_distance + 1e-6, 'start is never after end')
                 ctx.check(line.project(s.start_point) <= line.project(s.end_point) + 1e-12, 'start / end points are ordered along the path')
+            # distances in metres, as measured by the library itself
+            if segs and abs(inside.length - line.length) <= 1e-12 and on_edges <= 1e-12:
+                total_m = tr.points[-1].distance_metres
+                covered = sum(s.end_distance - s.start_distance for s in segs)
+                ctx.check(abs(covered - total_m) <= 0.02 * total_m and abs(segs[0].start_distance) <= 0.05 * total_m
+                          and abs(segs[-1].end_distance - total_m) <= 0.05 * total_m,
+                          'metre distances: the segments span the path from its start to its end (within 2-5 percent)')
+                if not (abs(covered - total_m) <= 1e-6 * total_m and abs(segs[0].start_distance) <= 1e-6 * total_m):
+                    deferred.append('metre distances: a path inside the model starts at distance 0 and segment lengths add up exactly')
             keys = [(s.start_distance, s.end_distance) for s in segs]
             ctx.check(keys == sorted(keys), 'segments are listed by increasing distance from the start')
             proj = [line.project(s.start_point) for s in segs]
@@ -311,6 +323,8 @@ def concrete_suite(ctx):
                 ctx.check(ok, "prepared data holds, for each segment, the values of that segment's cell at every depth")
             else:
                 ctx.check(len(td['linear_index']) == 0, 'a path that misses the model gives an empty transect')
+    for label in deferred[:1]:
+        ctx.check(False, label)
 
 
 def body_real(ctx):
